@@ -82,11 +82,18 @@ async def turns(n):
 # ------------------------------------------------------------------------------------------------ app
 def gen_app(rng):
     n = rng.choice([1, 2, 3])
-    return {'compress': rng.random() < 0.4, 'log': rng.random() < 0.4, 'move': rng.random() < 0.75,
+    case = {'compress': rng.random() < 0.4, 'log': rng.random() < 0.4, 'move': rng.random() < 0.75,
             'max_size': rng.choice([None, None, 0, 600]), 'cdx': rng.random() < 0.5,
             'concurrency': rng.choice([2, 2, 3]), 'crash': rng.random() < 0.8, 'crash_after': rng.choice([2, 5, 20]),
             'slow': [{'delay': rng.choice([40, 80, 150, 400]), 'body': rng.choice([0, 5, 3000])} for _ in range(n)],
             'fast': rng.choice([0, 1, 2]), 'teardown_turns': rng.choice([300, 600])}
+    if rng.random() < 0.4:
+        # a GRACEFUL stop (quota reached / one Ctrl+C / Application.stop) while several items are still being fetched
+        n = rng.choice([2, 3])
+        case.update(crash=False, stop=True, concurrency=n + rng.choice([1, 2]),
+                    slow=[{'delay': d, 'body': rng.choice([0, 5, 3000])} for d in rng.sample([30, 60, 120, 250, 450], n)],
+                    fast=rng.choice([0, 1]), teardown_turns=700)
+    return case
 
 
 def run_app(case):
@@ -109,6 +116,9 @@ def run_app(case):
         delays[8100 + i] = (sl['delay'], sl['body'])
     if case['crash']:
         items.insert(min(1, len(items)), 'http://h:9/crash')
+    if case.get('stop'):
+        items.insert(len(case['slow']), 'http://h:9/stop')
+    holder = {}
     for i in range(case['fast']):
         items.append('http://h:%d/fast%d' % (8200 + i, i))
         delays[8200 + i] = (1, 7)
@@ -161,6 +171,10 @@ def run_app(case):
                     if url.endswith('/crash'):
                         yield from turns(case['crash_after'])
                         raise ValueError('bug in a scraper/plugin')
+                    if url.endswith('/stop'):
+                        yield from turns(case['crash_after'])
+                        holder['app'].stop()        # as the quota check / the first Ctrl+C does
+                        return
                     with client.session() as session:
                         yield from session.start(Request(url))
                         yield from session.download(io.BytesIO())
@@ -178,6 +192,7 @@ def run_app(case):
             series.concurrency_pipelines.add(download)
             series.concurrency = case['concurrency']
             app = Application(series)
+            holder['app'] = app
             state['exit'] = await compat._ensure(app.run())
             # Application.run_sync(): stop the loop, let the ready callbacks run once more
             await turns(3)
@@ -201,10 +216,11 @@ def check_app(ctx, case):
     finally:
         if work:
             shutil.rmtree(work, ignore_errors=True)
-    ctx.case(('app', repr(case)), tags=['app:%s:%s' % ('crash' if case['crash'] else 'normal', 'move' if case['move'] else 'stay'),
+    ctx.case(('app', repr(case)), tags=['app:%s:%s' % ('crash' if case['crash'] else 'graceful-stop' if case.get('stop') else 'normal',
+                                                        'move' if case['move'] else 'stay'),
                                           'app:moved-files=%d' % min(moved, 3)])
     for kind, where, detail in fails:
-        ctx.fail(kind, where, {'stream': 'app', 'app': case}, detail + ' [real Application + pipelines, crash=%s move=%s]' % (case['crash'], case['move']))
+        ctx.fail(kind, where, {'stream': 'app', 'app': case}, detail + ' [real Application + pipelines, crash=%s stop=%s move=%s]' % (case['crash'], bool(case.get('stop')), case['move']))
 
 
 def stream_app(ctx, n):
